@@ -49,8 +49,8 @@ ENGINE_STREAMS = {
     "C01": [("C01", 60, 1500, 40), ("static", 40, 1000, 40)],
     "C02": [("C01", 60, 1500, 40), ("midset", 40, 1000, 40)],
     "C03": [("C01", 60, 1500, 40), ("faults", 40, 1000, 40)],
-    "C05": [("C01", 40, 1500, 40), ("faults", 40, 1500, 40), ("reject", 40, 1000, 40)],
-    "C06": [("C01", 60, 1500, 40), ("churn", 40, 1000, 60)],
+    "C05": [("C01", 30, 1500, 40), ("faults", 30, 1500, 40), ("reject", 30, 1000, 40), ("wide", 20, 400, 30)],
+    "C06": [("C01", 40, 1500, 40), ("churn", 40, 1000, 60), ("wide", 20, 400, 30)],
     "C07": [("faults", 60, 2000, 40), ("binds", 30, 1000, 40), ("reject", 30, 1000, 40)],
     "C08": [("binds", 100, 3000, 40)],
     "C10": [("C01", 50, 1500, 40), ("faults", 50, 1500, 40)],
@@ -61,6 +61,8 @@ ENGINE_STREAMS = {
 
 
 def run_engine(ctx, K):
+    if ctx.pid == "C05":
+        run_C05_edgeindex(ctx, K)
     b = K.go_build(ctx, "incrtrace")
     if not b:
         return
@@ -88,9 +90,42 @@ def engine_plan(pid):
     )
 
 
+def run_C18_full(ctx, K):
+    run_C18(ctx, K)
+    # second half of the property: edge insertions into all small DAGs, through the engine pipeline
+    b = K.go_build(ctx, "incrtrace")
+    if not b:
+        return
+    for (name, nodes, length, maxh) in (("dag3", 3, tier_n(ctx, 4, 5), 256), ("dag4", 4, tier_n(ctx, 3, 4), 256), ("dag3lim", 3, tier_n(ctx, 4, 5), 3)):
+        cases = os.path.join(ctx.rundir, "cases_C18_%s.v" % name)
+        rep = K.run_tool(ctx, b, ["-mode", "dags", "-dagnodes", str(nodes), "-len", str(length), "-dagmaxh", str(maxh), "-claim", "C18",
+                                  "-coq", cases, "-coqmax", str(tier_n(ctx, 60, 600)), "-seed", str(ctx.seed)], "engine-" + name)
+        if rep:
+            ctx.coq_cases += rep.get("coq_cases", 0)
+            K.run_cases(ctx, cases, "Engine.v (addChild/adjustHeights)~graph.go, adjust_heights_heap.go (%s)" % name)
+
+
+def run_C05_edgeindex(ctx, K):
+    b = K.go_build(ctx, "edgetrace")
+    if not b:
+        return
+    cases = os.path.join(ctx.rundir, "cases_C05_edge_exh.v")
+    rep = K.run_tool(ctx, b, ["-mode", "exhaustive", "-len", str(tier_n(ctx, 3, 5)), "-coq", cases,
+                              "-coqmax", str(tier_n(ctx, 100, 1500)), "-seed", str(ctx.seed)], "edge-exhaustive")
+    if rep:
+        ctx.coq_cases += rep.get("coq_cases", 0)
+        K.run_cases(ctx, cases, "EdgeIndex.v~edge_index.go (exhaustive suffixes, sample)")
+    cases = os.path.join(ctx.rundir, "cases_C05_edge_rnd.v")
+    rep = K.run_tool(ctx, b, ["-mode", "random", "-len", "300", "-n", str(tier_n(ctx, 6, 400)), "-coq", cases,
+                              "-coqmax", str(tier_n(ctx, 12, 240)), "-seed", str(ctx.seed)], "edge-random")
+    if rep:
+        ctx.coq_cases += rep.get("coq_cases", 0)
+        K.run_cases(ctx, cases, "EdgeIndex.v~edge_index.go (random, 3 lists per owner)")
+
+
 PLANS = {
     "C18": dict(
-        run=run_C18,
+        run=run_C18_full,
         assumptions=[
             "theorems are about the Gallina models Heap.v / Adjust.v; the Go code is tied to them by trace replay on generated and exhaustively enumerated operation sequences",
             "operations are issued under the preconditions the engine guarantees (add only when absent, remove/fix only when queued)",
